@@ -18,7 +18,8 @@ package main
 // direct reply to the message has been merged.  Only live events that the
 // router child's queue forwarder has not handed over yet can arrive later;
 // they are recorded in the window in which they arrive (the judge allows
-// that), and after the last window the harness waits for stragglers.
+// that); at the end of a session the router child's queue is flushed by a
+// marker event (see sysRun), so nothing is left behind.
 //
 // Auxiliary observations, taken when the composition is quiet:
 //   - before a REQ, the database's answer to the REQ's filters (the same
@@ -54,6 +55,7 @@ func init() { subcmds["sys"] = sysMain }
 
 const sysTimeout = 3 * time.Second
 const sysRouterBuf = 100
+const sysFlushSub = "\x01flush"
 
 // ---------------------------------------------------------------------------
 // JSON shapes (those of C16, so that the printing code is the same)
@@ -313,6 +315,29 @@ func (d *sysDriver) await(sub string) bool {
 	}
 }
 
+// awaitEvent reads until an EVENT labelled sub arrives.
+func (d *sysDriver) awaitEvent(sub string) bool {
+	t := time.NewTimer(sysTimeout)
+	defer t.Stop()
+	for {
+		select {
+		case s := <-d.send:
+			if !d.record(s) {
+				return false
+			}
+			if e, ok := s.(*mocrelay.ServerEventMsg); ok && e.SubscriptionID == sub {
+				return true
+			}
+		case why := <-d.dead:
+			d.err = why
+			return false
+		case <-t.C:
+			d.err = "timeout: the flush event never came back"
+			return false
+		}
+	}
+}
+
 // stragglers collects what still arrives until nothing has arrived for a while.
 func (d *sysDriver) stragglers(quiet time.Duration) {
 	for {
@@ -383,7 +408,19 @@ func sysRun(capacity int, msgs []sysMsg) (c sysCase) {
 	d := sysStart(ctx, h)
 	lru := &sysLRU{size: 2}
 	var want int64
-	for i, m := range c.Msgs {
+	// the session proper, then the flush of the router child's queue: a REQ that only the
+	// flush event matches, and that event (ephemeral: no store keeps it).  The queue is FIFO
+	// and the merge session keeps each child's order, so when the flush event's live copy
+	// has arrived every earlier live copy has.  The two messages are ordinary messages of
+	// the recorded session (the judge treats them like the others).
+	session := append([]sysMsg{}, c.Msgs...)
+	flushEv := common.JEvent{ID: strings.Repeat("ff", 32), PK: strings.Repeat("fe", 32), TS: 1, Kind: 20000,
+		Tags: [][]string{}, Content: "flush", Sig: strings.Repeat("fd", 64)}
+	flushIDs := []string{flushEv.ID}
+	session = append(session,
+		sysMsg{K: "req", Sub: sysFlushSub, Fs: []common.JFilter{{IDs: &flushIDs}}},
+		sysMsg{K: "event", E: &flushEv})
+	for i, m := range session {
 		w := sysWin{M: m, Sent: fmt.Sprintf("\x01end-%d", i), Sq: []common.JEvent{}, List: []common.JEvent{}, Obs: []sysReply{}}
 		if m.K == "req" {
 			out, err := sqlite.VerifQueryEvent(ctx, db, seed, common.ToFilters(m.Fs), math.MaxUint)
@@ -420,8 +457,20 @@ func sysRun(capacity int, msgs []sysMsg) (c sysCase) {
 		}
 		c.Wins = append(c.Wins, w)
 	}
+	// wait for the flush event's live copy (it may already be in the last window)
 	d.cur = []sysReply{}
-	d.stragglers(4 * time.Millisecond)
+	flushed := false
+	for _, r := range c.Wins[len(c.Wins)-1].Obs {
+		if r.K == "event" && r.Sub == sysFlushSub {
+			flushed = true
+		}
+	}
+	if !flushed && !d.awaitEvent(sysFlushSub) {
+		c.Tail = d.cur
+		c.Err = d.err
+		return
+	}
+	d.stragglers(300 * time.Microsecond)
 	c.Tail = d.cur
 	if d.err != "" {
 		c.Err = d.err
